@@ -1,7 +1,44 @@
-(* Property C05 - only well-formed blocks can extend any chain the node keeps. *)
-From Virel Require Import Lib.Config Lib.U64 Lib.AMap Model.Ledger Model.Node Proofs.NodeBasics.
+(* Property C05 - only well-formed blocks can extend any chain the node keeps.
+   The property's clause list is Spec/WellFormed.v (one boolean per clause).  Statements only. *)
+From Virel Require Import Lib.Config Lib.U64 Lib.AMap Model.Ledger Model.Node Spec.WellFormed
+  Proofs.NodeBasics Proofs.WellFormedProof Gen.Params.
 Open Scope N_scope.
 
+(* the full statement: every accepted new block satisfies every clause *)
+Definition C05_full : Prop := forall cfg genesis_addr team_key n b now n' amb,
+  deliver cfg genesis_addr team_key n b now = (n', Accepted, amb) ->
+  get_block n (b_hash b) = None -> wellformed cfg n b now = 0.
+
+(* PROVED PART (for all configurations, node states, blocks and clock readings): an accepted block has a stored parent,
+   was not stored before, and satisfies: proof of work at its declared difficulty outside the checkpointed range (1),
+   difficulty = retarget of its parent (2), height = parent + 1 (3), parent time <= time <= now + future limit (4),
+   cumulative difficulty = parent's + its own contribution (5), version required at its height (6), no merge-mining
+   duplicates (8), every side block carries at least 2/3 of the block's work (14), difficulty >= minimum.
+   Hypotheses: the clock, the difficulty and the parent's height are far from the uint64/uint128 limits.
+   MISSING for the full statement: clause 7 is false of the code (refuted below: open finding R13a); clause 9 (total
+   transaction size) is not enforced by the code either; clause 10 (at most two side blocks) is enforced by the wire
+   decoder, not by validation; clauses 11-13 (side blocks distinct, unreferenced, sharing an ancestor) are covered by
+   the correspondence check only. *)
+Theorem C05_accepted_wellformed_partial : forall cfg genesis_addr team_key n b now n' amb,
+  deliver cfg genesis_addr team_key n b now = (n', Accepted, amb) ->
+  now + future_time_limit cfg * 1000 < two64 -> b_diff b * 2 < two128 ->
+  (forall p, get_block n (prev_hash b) = Some p -> b_height p + 1 < two64) ->
+  exists p, get_block n (prev_hash b) = Some p /\ get_block n (b_hash b) = None /\
+    wf_pow cfg b = true /\ wf_diff cfg n p b = true /\ wf_height p b = true /\ wf_time cfg p b now = true /\
+    wf_cd p b = true /\ wf_version cfg b = true /\ wf_chains cfg b = true /\ wf_sidework cfg b = true /\
+    min_difficulty cfg <= b_diff b.
+Proof. exact accepted_wellformed_core. Qed.
+Print Assumptions C05_accepted_wellformed_partial.
+
+(* the clause "ancestor list equal to the hashes of its actual predecessors" does NOT hold of the code: witness *)
+Theorem C05_ancestors_refuted :
+  exists n b now n' amb p,
+    deliver cfg_verifnet 7 0 n b now = (n', Accepted, amb) /\ get_block n (prev_hash b) = Some p /\
+    wf_anc p b = false.
+Proof. exact accepted_wellformed_anc_refuted. Qed.
+Print Assumptions C05_ancestors_refuted.
+
+(* a block that fails any rule is rejected and leaves no trace: the step returns the node it was given *)
 Theorem C05_rejected_no_trace : forall cfg genesis_addr team_key n b now n' c amb,
   deliver cfg genesis_addr team_key n b now = (n', Rejected c, amb) -> n' = n.
 Proof. exact deliver_rejected_unchanged. Qed.
